@@ -903,6 +903,18 @@ func init() {
 	intercepts["time.After"] = func(ex *Exec, fr *Frame, a []Value, s ssa.Instruction) Value {
 		return &OpaqueV{kind: "chan-nil"} // never fires within one step of the skeleton
 	}
+	// the other readings of an instant, derived from its milliseconds (the model's clock has millisecond resolution)
+	for _, u := range []struct {
+		name string
+		op   string
+		k    uint64
+	}{{"Unix", "bvsdiv", 1000}, {"UnixMicro", "bvmul", 1000}, {"UnixNano", "bvmul", 1000000}} {
+		u := u
+		intercepts["(time.Time)."+u.name] = func(ex *Exec, fr *Frame, a []Value, s ssa.Instruction) Value {
+			ms := intercepts["(time.Time).UnixMilli"](ex, fr, a, s).(*Term)
+			return ex.tt.bin(u.op, ms, ex.tt.BV(u.k, 64))
+		}
+	}
 	intercepts["(time.Time).UnixMilli"] = func(ex *Exec, fr *Frame, a []Value, s ssa.Instruction) Value {
 		if o, ok := a[0].(*OpaqueV); ok && o.kind == "time" {
 			return o.data.(*Term)
